@@ -32,15 +32,58 @@ def cfg_text(uids, names, has, maxrem, maxpuid, auto, props=True, spec="Spec"):
     return s
 
 
-class StackAdapter:
-    """drives one real RemoteStack; objects are known to the harness by the model's identities"""
+class Conc:
+    """Concretisation of the model's abstract keys.  The model only needs keys to be equal or different; the real
+    stacks use names and addresses with structure: path-like strings that contain one another (uxd addresses, dotted
+    names) and (host, port) duples (every IP stack).  An equality test written as containment behaves differently on
+    exactly those, so every replay / history runs under one of these concretisations; keys the map does not know
+    (the model's fresh keys) stand for themselves."""
 
-    def __init__(self, local, puid):
+    def __init__(self, label, names, has, name_vals, ha_vals):
+        self.label = label
+        self.enc_map = [{}, dict(zip(names, name_vals)), dict(zip(has, ha_vals))]
+        self.dec_map = [{}, {v: k for k, v in self.enc_map[1].items()}, {v: k for k, v in self.enc_map[2].items()}]
+        assert all(len(self.enc_map[i]) == len(self.dec_map[i]) for i in (1, 2))
+        if "fh" not in self.enc_map[2] and any(isinstance(v, tuple) for v in ha_vals):
+            self.enc_map[2]["fh"] = ("198.51.100.9", 9)
+            self.dec_map[2][("198.51.100.9", 9)] = "fh"
+
+    def enc(self, dim, k):
+        return self.enc_map[dim].get(k, k)
+
+    def dec(self, dim, v):
+        try:
+            return self.dec_map[dim].get(v, v if not self.dec_map[dim] or v in ("fn", "fh") else ("?", repr(v)))
+        except TypeError:
+            return ("?", repr(v))
+
+
+NESTED_NAMES = ["stack.alpha.main", "stack.alpha", "alpha", "main", "stack", "a", "beta"]
+NESTED_HAS = ["/tmp/uxd/main", "/tmp/uxd", "/tmp", "uxd", "main", "/tmp/uxd/main/x", "/var/run"]
+DUPLE_HAS = [("127.0.0.1", 7000), ("127.0.0.1", 7001), ("127.0.0.2", 7000), ("localhost", 7000), ("::1", 7000),
+             ("127.0.0.1", 700), ("10.0.0.1", 7001)]
+
+
+def concretisations(names, has):
+    """local key first in each list: every other value of the nested lists is contained in, or contains, the local one"""
+    return [Conc("nested-strings", names, has, NESTED_NAMES[:len(names)], NESTED_HAS[:len(has)]),
+            Conc("ip-duples", names, has, NESTED_NAMES[:len(names)], DUPLE_HAS[:len(has)])]
+
+
+IDENT = Conc("atomic", [], [], [], [])
+
+
+class StackAdapter:
+    """drives one real RemoteStack; objects are known to the harness by the model's identities; keys go in and come
+    out in the model's abstract form, the stack sees their concretisation"""
+
+    def __init__(self, local, puid, conc=IDENT):
         env.use_repo()
         from ioflo.aio.proto import stacking, devicing
         self.devicing = devicing
         self.local = local
-        self.stack = stacking.RemoteStack(uid=local[0], name=local[1], ha=local[2], puid=puid)
+        self.conc = conc
+        self.stack = stacking.RemoteStack(uid=local[0], name=conc.enc(1, local[1]), ha=conc.enc(2, local[2]), puid=puid)
         self.objs = {}          # identity -> member object
 
     # -- projection
@@ -50,20 +93,20 @@ class StackAdapter:
                 return i
         return 0                # an object the harness never saw added
 
-    @staticmethod
-    def attrs(o):
-        return (o.uid, o.name, o.ha)
+    def attrs(self, o):
+        return (o.uid, self.conc.dec(1, o.name), self.conc.dec(2, o.ha))
 
     def project(self, res=None):
         st = self.stack
         assert st.remotes is st.uidRemotes
+        c = self.conc
         out = {"uidIx": tuple((k, self.ident(o)) for k, o in st.uidRemotes.items()),
-               "nameIx": tuple((k, self.ident(o)) for k, o in st.nameRemotes.items()),
-               "haIx": tuple((k, self.ident(o)) for k, o in st.haRemotes.items()),
+               "nameIx": tuple((c.dec(1, k), self.ident(o)) for k, o in st.nameRemotes.items()),
+               "haIx": tuple((c.dec(2, k), self.ident(o)) for k, o in st.haRemotes.items()),
                "attr": {i: self.attrs(o) for i, o in self.objs.items()},
                "puid": st.puid}
         # the local device is untouched by operations on remotes
-        assert (st.local.uid, st.local.name, st.local.ha) == tuple(self.local)
+        assert (st.local.uid, c.dec(1, st.local.name), c.dec(2, st.local.ha)) == tuple(self.local)
         if res is not None:
             out["res"] = res
         return out
@@ -87,7 +130,7 @@ class StackAdapter:
         return {"t": "noop"} if same else {"t": "ok"}
 
     def foreign(self, u, n, h):
-        return self.devicing.RemoteDevice(stack=self.stack, uid=u, name=n, ha=h)
+        return self.devicing.RemoteDevice(stack=self.stack, uid=u, name=self.conc.enc(1, n), ha=self.conc.enc(2, h))
 
     def add_obj(self, obj):
         i = self.free_id()
@@ -101,14 +144,15 @@ class StackAdapter:
         if name == "Add":
             return self.add_obj(obj if obj is not None else self.foreign(*args))
         if name == "AddAuto":
-            return self.add_obj(self.devicing.RemoteDevice(stack=st, name=args[0], ha=args[1]))
+            return self.add_obj(self.devicing.RemoteDevice(stack=st, name=self.conc.enc(1, args[0]), ha=self.conc.enc(2, args[1])))
         if name == "AddAgain":
             return self._guard(self.objs[args[0]], st.addRemote)
         if name in ("Move", "Rename", "Reha"):
             o = self.objs[args[0]]
             fn = {"Move": st.moveRemote, "Rename": st.renameRemote, "Reha": st.rehaRemote}[name]
-            cur = self.attrs(o)[("Move", "Rename", "Reha").index(name)]
-            return self._guard(o, fn, args[1], same=(args[1] == cur))
+            dim = ("Move", "Rename", "Reha").index(name)
+            cur = self.attrs(o)[dim]
+            return self._guard(o, fn, self.conc.enc(dim, args[1]), same=(args[1] == cur))
         if name == "Remove":
             r = self._guard(self.objs[args[0]], st.removeRemote)
             if r["t"] == "ok":
@@ -121,8 +165,9 @@ class StackAdapter:
         if name in ("MoveF", "RenameF", "RehaF"):
             o = obj if obj is not None else self.foreign(*args[:3])
             fn = {"MoveF": st.moveRemote, "RenameF": st.renameRemote, "RehaF": st.rehaRemote}[name]
-            cur = self.attrs(o)[("MoveF", "RenameF", "RehaF").index(name)]
-            return self._guard(o, fn, args[3], same=(args[3] == cur))
+            dim = ("MoveF", "RenameF", "RehaF").index(name)
+            cur = self.attrs(o)[dim]
+            return self._guard(o, fn, self.conc.enc(dim, args[3]), same=(args[3] == cur))
         if name == "RemoveF":
             o = obj if obj is not None else self.foreign(*args[:3])
             return self._guard(o, st.removeRemote)
@@ -130,8 +175,8 @@ class StackAdapter:
             # the model's Twin(dim, k): a copy of the member holding key k in that dimension, else a stranger with k
             dim, k = (args[0], args[1]) if name == "RemoveT" else (("MoveT", "RenameT", "RehaT").index(name) + 1, args[0])
             ix = (st.uidRemotes, st.nameRemotes, st.haRemotes)[dim - 1]
-            if k in ix:
-                keys = self.attrs(ix[k])
+            if self.conc.enc(dim - 1, k) in ix:
+                keys = self.attrs(ix[self.conc.enc(dim - 1, k)])
             else:
                 keys = [0, "fn", "fh"]
                 keys[dim - 1] = k
@@ -145,10 +190,10 @@ class StackAdapter:
 
 
 # ---------------------------------------------------------------- binding B
-def _random_trace(rng, uids, names, has, n):
+def _random_trace(rng, uids, names, has, n, conc=IDENT):
     local = (uids[0], names[0], has[0])
-    ad = StackAdapter(local, local[0])
-    evs = [{"ev": "Init", "puid": local[0]}]
+    ad = StackAdapter(local, local[0], conc)
+    evs = [{"ev": "Init", "puid": local[0], "conc": conc.label}]
     stale = []          # objects outside the stack: removed members, rejected additions
 
     def log(name, argd, res):
@@ -170,6 +215,10 @@ def _random_trace(rng, uids, names, has, n):
     return evs
 
 
+def conc_of(ad):
+    return ad.conc
+
+
 def _random_step(rng, ad, uids, names, has, stale, log):
     if True:
         c = rng.random()
@@ -180,7 +229,7 @@ def _random_step(rng, ad, uids, names, has, stale, log):
             if rng.random() < 0.25:
                 if ad.stack.puid >= uids[-1] + 40:
                     return
-                o = ad.devicing.RemoteDevice(stack=ad.stack, name=nm, ha=h)
+                o = ad.devicing.RemoteDevice(stack=ad.stack, name=conc_of(ad).enc(1, nm), ha=conc_of(ad).enc(2, h))
                 r = ad.add_obj(o)
                 log("AddAuto", {"n": nm, "h": h}, r)
             elif stale and rng.random() < 0.3:
@@ -244,7 +293,8 @@ def _random_step(rng, ad, uids, names, has, stale, log):
 def run_c37(ctx):
     ctx.rule = ("A: complete state graph of Remotes.tla (local keys + 3 usable uids x names x addresses; members, re-adds, "
                 "twins and strangers; a second graph with automatically assigned uids), every edge replayed on a real "
-                "RemoteStack; B: seeded random long operation sequences on the real stack validated by TLC against "
+                "RemoteStack with the abstract keys concretised as nested path-like strings / (host, port) duples; B: seeded random "
+                "long operation sequences (same concretisations, alternating) on the real stack validated by TLC against "
                 "RemotesTrace.tla; distinct = graph edges + accepted traces")
     ctx.assume("TLC, the TLA+ value parser and the adapter in vf/families/remotes.py (object identities, projection of the "
                "three odicts) are trusted")
@@ -282,10 +332,23 @@ def run_c37(ctx):
         paths = graph.edge_cover(g, max_len=120)
         traces = replay.graph_paths_to_traces(g, paths)
         local = (U[0], N[0], H[0])
-        n, divs = replay.replay("C37", traces, lambda init, local=local: StackAdapter(local, init["puid"]))
-        for d in divs:
-            d.extra["graph"] = label
-        ctx.diverge(divs)
+        # every edge under a concretisation of the keys: quick = one per graph (nested strings on the explicit graph,
+        # (host, port) duples on the automatic-uid graph), thorough = both on both
+        concs = concretisations(N, H)
+        if ctx.quick:
+            concs = [concs[1 if auto else 0]]
+        n = 0
+        for ci, conc in enumerate(concs):
+            # (thorough, large graph: the second concretisation replays every other path to stay within the budget)
+            sub = traces[::2] if (ci == 1 and not auto and len(traces) > 5000) else traces
+            k, divs = replay.replay("C37", sub, lambda init, local=local, conc=conc: StackAdapter(local, init["puid"], conc))
+            n += k
+            for d in divs:
+                d.extra["graph"] = label
+                d.extra["keys"] = conc.label
+                d.where = "%s:%s" % (conc.label, d.where)
+            ctx.diverge(divs)
+        ctx.extra.setdefault("concretisations", {})[label] = [c.label for c in concs]
         total += g.nedges
         cov += graph.covered_edges(paths)
         ctx.add_validated(len(traces), {"graph": label, "path": [s[0] for s in traces[len(traces) // 2]][:25]})
@@ -296,7 +359,8 @@ def run_c37(ctx):
     U = list(range(1, 8))
     N = ["n%d" % i for i in range(1, 8)]
     H = ["h%d" % i for i in range(1, 8)]
-    trs = [_random_trace(rng, U, N, H, rng.randint(60, 200)) for _ in range(ntr)]
+    concs = concretisations(N, H)
+    trs = [_random_trace(rng, U, N, H, rng.randint(60, 200), concs[i % 2]) for i in range(ntr)]
     broken = [t for t in trs if t[-1]["ev"] == "EXCEPTION"]
     for t in broken[:10]:
         e = t[-1]
